@@ -57,7 +57,7 @@ PROPS = {
         explanation="Header codec, message frame codec and decode loop under contract; registry/dispatch exhaustive.",
     ),
     "C04": dict(
-        specs=["packer", "avp", "avp_types", "avp_grouped", "base"],
+        specs=["packer", "avp", "avp_types", "avp_grouped", "base", "node_model", "family", "c03"],
         ground=[ground.c01_struct_layouts],
         replay=replay.generic,
         trusted_base=["T-struct, T-sock, T-utf8, T-time raise conditions of the stdlib calls used by the getters"],
@@ -204,7 +204,7 @@ PROPS = {
         explanation="case postconditions over a virtual clock.",
     ),
     "C09": dict(
-        specs=["packer", "avp", "avp_types", "avp_grouped", "base", "node_model", "peer", "helpers", "c20", "family", "node", "c13"],
+        specs=["packer", "avp", "avp_types", "avp_grouped", "base", "node_model", "peer", "helpers", "c20", "family", "node", "c13", "c06"],
         ground=[], replay=replay.generic,
         trusted_base=[],
         assumptions=COMMON_ASSUME + [
@@ -246,7 +246,7 @@ PROPS = {
         explanation="eligibility postcondition of route_request + correlation contracts.",
     ),
     "C13": dict(
-        specs=["packer", "avp", "avp_types", "avp_grouped", "base", "node_model", "peer", "helpers", "c20", "family", "node", "c13", "c19"],
+        specs=["packer", "avp", "avp_types", "avp_grouped", "base", "node_model", "peer", "helpers", "c20", "family", "node", "c13", "c19", "c06"],
         ground=[ground.c13_event_ownership], replay=replay.generic,
         trusted_base=["socket objects: close()/fileno()/setsockopt() models"],
         assumptions=COMMON_ASSUME + [
@@ -270,7 +270,7 @@ PROPS = {
         explanation="per-mutator table postconditions + frames.",
     ),
     "C12": dict(
-        specs=["packer", "avp", "avp_types", "avp_grouped", "base", "node_model", "peer", "helpers", "c20", "family", "node", "c13", "c19"],
+        specs=["packer", "avp", "avp_types", "avp_grouped", "base", "node_model", "peer", "helpers", "c20", "family", "node", "c13", "c19", "c06", "c15", "c18"],
         ground=[], replay=replay.generic,
         trusted_base=["time.time() non-decreasing"],
         assumptions=COMMON_ASSUME + [
@@ -407,7 +407,7 @@ PROPS = {
                     "of receive_cer/receive_cea over a set model (characteristic arrays) with a fold lemma for vendor-specific ids.",
     ),
     "C03": dict(
-        specs=["packer", "avp", "avp_types", "avp_grouped", "base", "node_model", "family", "node", "c08"],
+        specs=["packer", "avp", "avp_types", "avp_grouped", "base", "node_model", "family", "node", "c08", "c03"],
         ground=[ground.c03_tables, ground.c01_dictionary],
         replay=replay.generic, category="other",
         trusted_base=["the rows are evaluated on the imported real modules (exhaustive enumeration of a finite table)"],
